@@ -27,14 +27,21 @@ def run(tier):
         for c0 in range(first_draws.get(spec, 1)) if spec in first_draws else [-1]:
             conds.append(Cond("h_repair.py", "stays_in_grammar", to, twin="reach" if (mode == "repair2" and c0 in (-1, 1)) else None, path_timeout=to / 2,
                               env={"H_SPEC": spec, "H_MODE": mode, "H_CHOICES": str(nch), "H_C0": str(c0)}))
-    run.run_conditions(conds, conformance_harnesses=[("h_fuzz.py", {"H_SPEC": s}) for s in ("list", "nested", "rec")]
+    # (a) inductive unit harnesses, one per fuzz() implementation (stub sub-nodes)
+    for fn in ("alternative_step", "concatenation_step", "nonterminal_step"):
+        conds.append(Cond("h_nodes.py", fn, to, path_timeout=to / 2))
+    for kind in (("rep", "star") if q else ("rep", "star", "plus", "option")):
+        conds.append(Cond("h_nodes.py", "repetition_step", to, twin="reach_rep" if kind == "rep" else None, path_timeout=to / 2, env={"H_KIND": kind}))
+    run.run_conditions(conds, conformance_harnesses=["h_nodes.py"] + [("h_fuzz.py", {"H_SPEC": s}) for s in ("list", "nested", "rec")]
                        + [("h_repair.py", {"H_SPEC": "rep2", "H_CHOICES": "12"})])
-    run.encoded = ["Grammar.fuzz/prime", "Alternative/Concatenation/Repetition/Plus/Star/Option/NonTerminalNode/TerminalNode.fuzz",
+    run.encoded = ["unit: Alternative.fuzz, Concatenation.fuzz, Repetition.fuzz (incl. override_* arguments), Star/Plus/Option.fuzz, NonTerminalNode.fuzz", "Grammar.fuzz/prime", "Alternative/Concatenation/Repetition/Plus/Star/Option/NonTerminalNode/TerminalNode.fuzz",
                    "Evaluator.evaluate_individual", "RepetitionBoundsConstraint.fitness", "RepetitionBoundsSuggestion.get_replacements/"
                    "_insert_repetitions/_delete_repetitions", "ComparisonConstraint.fitness", "EqualComparisonSuggestion.get_replacements",
                    "PopulationManager.fix_individual", "DerivationTree.replace_multiple", "SimpleSubtreeCrossover.crossover", "SimpleMutation.mutate"]
     run.extra["source_sha256_16"] = source_fingerprint(FILES)
-    run.bounds = {"plain generation": "6 grammars of the family; every random draw symbolic (<= 8 / 14 draws); node budgets {0,2,5,12} / {0,1,2,3,5,8,12,30}; MAX_REPETITIONS = 2",
+    run.bounds = {"node units": "Alternative (<= 3 stub alternatives), Concatenation (<= 3), Repetition/Star (+ Plus/Option thorough) with min,max <= 3, "
+                  "override start <= 2, override iterations <= 3, NonTerminalNode; stub distances {0,1,3,inf}; budgets {0,1,2,5,100}; <= 3 draws",
+                  "plain generation": "6 grammars of the family; every random draw symbolic (<= 8 / 14 draws); node budgets {0,2,5,12} / {0,1,2,3,5,8,12,30}; MAX_REPETITIONS = 2",
                   "repair/operators": "4 specs (computed repetition over a 2-symbol group, computed repetition + equality constraint, equality constraint, "
                                       "computed range); pipeline fuzz -> evaluate -> repair -> evaluate -> repair | crossover | mutation with every draw symbolic; MAX_REPETITIONS = 3"}
     run.outside = ["regex terminals (instances come from the third-party exrex generator)", "generators (C16)", "Gmutator settings other than the default 0.0",
